@@ -888,6 +888,8 @@ def atom_value(a, val):
         return bool(val[a])
     if k == 'ne' and ('eq',) + tuple(a[1:]) in val:
         return not val[('eq',) + tuple(a[1:])]
+    if k == 'eq' and ('ne',) + tuple(a[1:]) in val:
+        return not val[('ne',) + tuple(a[1:])]
     if k == 'truthy' and ('truthy', a[1], not a[2]) in val:
         return not val[('truthy', a[1], not a[2])]
     if k == 'in':
